@@ -145,3 +145,18 @@ func ZZ_C19_bytes(a []int) {
 	}
 	zzReach("bytes")
 }
+
+// ZZ_C19_many (T-mode): packets of shape a with many user properties and
+// list elements (the positions printed by Dump get two, three and four
+// digits), built through the API and decoded from the wire.
+func ZZ_C19_many(a []int) {
+	sh := zzShapeOf(a)
+	sh.nz = 3
+	abs := zzGen(sh)
+	zzRenderAll(zzBuild(abs))
+	q, err := ReadPacket(&zzContig{b: zzRefEncode(abs)})
+	if err == nil {
+		zzRenderAll(q)
+	}
+	zzReach("many")
+}
